@@ -1,5 +1,5 @@
 (* C01 — Packet transports deliver every message intact, in order, exactly once. *)
-From MIO Require Import Base Gen ListN Varint VarintProofs Decoder DecoderProofs Driver Wire WireProofs.
+From MIO Require Import Base Gen ListN Varint VarintProofs Decoder DecoderProofs Driver Wire WireProofs ResId DriverIso.
 Local Open Scope N_scope.
 
 Theorem C01_gen_obligation : varint_consts_ok = true /\ adapters_shape_ok = true.
@@ -40,7 +40,28 @@ Example C01_ws_burst :
     ({| ws_buffered := []; ws_socket := [] |}, [[1]; [2]; [3]], Some RWaitNextEvent).
 Proof. vm_compute. reflexivity. Qed.
 
+(* (F11) What the adapter of a connection holds when the connection becomes ready -- for a WebSocket:
+   what the library consumed and buffered while it finished the handshake -- is delivered in the very
+   process() call that completes the handshake, one Message per chunk, right behind Connected /
+   Accepted, for a READ event and for a WRITE event alike.  (Before the repair this was false for
+   write events: nothing read the connection until the peer sent again.) *)
+Theorem C01_ready_connection_is_read_at_once : forall (s : dstate) (id : rid) (rd : readiness) (a : answer) (p : rprops),
+  resource_type gen_layout id = Remote -> find_remote id (remotes s) = Some p -> r_ready p = false ->
+  a_pending a = PReady -> quiet a ->
+  exists ev rest,
+    snd (process s id rd a) = OEv ev :: chunk_events (id, r_peer p) (a_chunks a) ++ rest /\
+    (ev = Connected (id, r_peer p) true \/ exists l, ev = Accepted (id, r_peer p) l).
+Proof. exact became_ready_delivers_buffered. Qed.
+
+Example C01_handshake_completed_by_write_event :
+  let a := {| a_race0 := []; a_pending := PReady; a_cb_conn := []; a_chunks := [(41, []); (42, [])]; a_read := RWaitNextEvent;
+              a_race := []; a_cb_disc := []; a_accepts := [] |} in
+  snd (drun (dinit 5) [LCall (UConnect true 4); LProcess 5 Write a]) =
+    [ORet (UConnect true 4) (RConnect (Some (5, 4))); OEv (Connected (5, 4) true); OEv (Message (5, 4) 41); OEv (Message (5, 4) 42)].
+Proof. vm_compute. reflexivity. Qed.
+
 Print Assumptions C01_gen_obligation.
+Print Assumptions C01_ready_connection_is_read_at_once.
 Print Assumptions C01_framed_send_wire.
 Print Assumptions C01_framed_end_to_end.
 Print Assumptions C01_framed_waits_only_on_empty_socket.
